@@ -9,7 +9,6 @@ package server
 
 import (
 	"fmt"
-	"sort"
 	"strings"
 	"sync"
 	"testing"
@@ -51,6 +50,7 @@ func c18SliceOfSQL(sql string) string {
 //	end_extra          ... sent to a connection the transaction did not use
 //	not_released       a transaction connection not recycled after the end (no keep-session)
 //	released_in_tx     a live transaction connection recycled before the transaction ended
+//	tx_reload_continued keep-session: the command after a reload inside a transaction was not refused + disconnected
 //	sp_missing/sp_extra SAVEPOINT / ROLLBACK TO / RELEASE not executed on exactly the transaction's connections
 func c18Judge(tr *txTrace) []c18Viol {
 	var out []c18Viol
@@ -71,14 +71,55 @@ func c18Judge(tr *txTrace) []c18Viol {
 		txConn[i] = map[string]int64{}
 	}
 	owner := map[int64]int{}
+	// keep-session: a session that was in a transaction when the namespace was reloaded must
+	// be refused (ErrTxNsChanged) and disconnected at its next command
+	mustReject := make([]bool, n)
+	afterReload := func() {
+		if !ks {
+			return
+		}
+		for y := range mustReject {
+			if inTx[y] {
+				mustReject[y] = true
+			}
+		}
+	}
 	for i, st := range tr.Steps {
 		x := st.Step.S
 		prev := inTx[x]
 		after := st.InTx
 		class := txClass(st.Step.Op)
+		if st.Step.Op == "reload" {
+			afterReload()
+			continue
+		}
+		// the step in which an injected fault closed a connection: the transaction may lose
+		// its connections here (the client is told by an error or is disconnected), so only
+		// the per-call clauses apply and the transaction's connection set starts afresh
+		lossStep := tr.Fired && tr.Case.Fault != nil && tr.Case.Fault.Kind == "close" && tr.Case.Fault.Cmd == i
+		reloadedMid := false
+		for _, e := range st.Events {
+			if e.Fault == "reload" {
+				reloadedMid = true
+			}
+		}
+		if mustReject[x] {
+			mustReject[x] = false
+			if class != "Q" && !(st.Reply.Kind == "err" && st.Ended) {
+				add("tx_reload_continued", x, i, fmt.Sprintf("%s after a reload inside a keep-session transaction answered %s %q, session ended=%v", st.Step.Op, st.Reply.Kind, st.Reply.Msg, st.Ended))
+			}
+		}
 		isEnd := prev && (class == "C" || class == "R" || class == "A1" || class == "Q")
-		window := prev || after
+		window := (prev || after) && !lossStep
 		endOp := map[string]string{"C": "commit", "R": "rollback", "A1": "autocommit", "Q": "rollback"}[class]
+		if prev && st.Ended && class != "Q" && st.Reply.Kind != "ok" && st.Reply.Kind != "rows" && !lossStep {
+			// the server refused the command and ended the session inside the transaction:
+			// Session.Close rolls back
+			isEnd, endOp = true, "rollback"
+		}
+		if lossStep {
+			isEnd = false
+		}
 		endSet := map[int64]bool{}
 		released := map[int64]bool{}
 		spSet := map[int64]bool{}
@@ -175,12 +216,15 @@ func c18Judge(tr *txTrace) []c18Viol {
 				txConn[x] = map[string]int64{}
 			}
 		}
-		if !after {
+		if !after || lossStep {
 			txConn[x] = map[string]int64{}
 		}
 		inTx[x] = after
 		if st.Ended {
 			inTx[x] = false
+		}
+		if reloadedMid {
+			afterReload()
 		}
 	}
 	return out
@@ -283,10 +327,85 @@ func c18Random(r *kit.Rand, n, maxLen int) []*txCase {
 			tail := []txStep{{S: sx, Op: r.Pick([]string{"begin", "ac0", "start"})}, {S: sx, Op: "ws2"}, {S: sx, Op: r.Pick([]string{"commit", "rollback"})}}
 			c.Steps = append(c.Steps[:at+1], append(tail, c.Steps[at+1:]...)...)
 		}
+		if c.Fault == nil && r.Chance(1, 3) {
+			c18AddScenario(r, c, r.Intn(ns))
+		}
 		for _, s := range r.Perm(ns) {
 			c.Steps = append(c.Steps, txStep{S: s, Op: r.Pick([]string{"quit", "quit", "disc"})})
 		}
 		out = append(out, c)
+	}
+	return out
+}
+
+// c18ExecSlice is the slice on which the first execute of a statement op can be addressed.
+func c18ExecSlice(r *kit.Rand, op string) string {
+	switch op {
+	case "rs1", "ws1", "fs1":
+		return "slice-1"
+	case "rs2", "ws2", "wg":
+		return r.Pick([]string{"slice-0", "slice-1"})
+	}
+	return "slice-0"
+}
+
+// c18AddScenario appends, for session sx, a transaction that is hit in the middle by
+//   - keep-session: a namespace reload between two of its statements or while one of them
+//     is executing (the client has to be refused and disconnected, never continued silently);
+//   - no keep-session: a backend fault that closes the connection of one slice while the
+//     transaction holds a second one, followed by further statements and the end.
+func c18AddScenario(r *kit.Rand, c *txCase, sx int) {
+	add := func(op string) int {
+		c.Steps = append(c.Steps, txStep{S: sx, Op: op})
+		return len(c.Steps) - 1
+	}
+	// leave whatever transaction state the random prefix produced
+	add("ac1")
+	add("rollback")
+	add(r.Pick([]string{"begin", "start", "ac0"}))
+	if txKS(c.Mode) {
+		first := r.Pick([]string{"ru", "ws2", "rs1", "wu", "ws0"})
+		at := add(first)
+		if r.Bool() {
+			add("reload")
+		} else {
+			c.Fault = &txFault{Kind: "reload", Cmd: at, Slice: c18ExecSlice(r, first), Op: "exec", N: 0}
+		}
+		add(r.Pick([]string{"ru", "ws2", "rs1", "commit", "sp"}))
+		add(r.Pick([]string{"commit", "rollback", "ru"}))
+		return
+	}
+	add(r.Pick([]string{"ws1", "rs1", "ws2", "fs1"}))
+	victim := r.Pick([]string{"ru", "wu", "fu", "fl", "sr"})
+	at := add(victim)
+	op := r.Pick([]string{"usedb", "setcharset", "setvars", "exec"})
+	if victim == "fl" && op == "exec" {
+		op = "fieldlist"
+	}
+	c.Fault = &txFault{Kind: "close", Cmd: at, Slice: "slice-0", Op: op, N: 0}
+	add(r.Pick([]string{"ws1", "rs1", "ru", "ws2"}))
+	add(r.Pick([]string{"commit", "rollback", "ac1"}))
+}
+
+// c18Curated are fixed cases run in both tiers (one per scenario family and variant).
+func c18Curated() []*txCase {
+	var out []*txCase
+	mk := func(mode, user string, ops []string, f *txFault) {
+		out = append(out, &txCase{Mode: mode, Users: []string{user}, Steps: txSteps(ops, "quit"), Fault: f})
+	}
+	for _, u := range []string{"rw", "rws"} {
+		mk("k", u, []string{"begin", "ru", "reload", "ru", "commit"}, nil)
+		mk("k", u, []string{"ac0", "ws2", "reload", "ws2", "commit"}, nil)
+		mk("k", u, []string{"begin", "ws2", "reload", "commit"}, nil)
+		mk("k", u, []string{"begin", "ru", "ru", "commit"}, &txFault{Kind: "reload", Cmd: 1, Slice: "slice-0", Op: "exec"})
+		mk("k", u, []string{"start", "ws2", "rs1", "rollback"}, &txFault{Kind: "reload", Cmd: 1, Slice: "slice-1", Op: "exec"})
+		mk("k", u, []string{"ru", "reload", "begin", "ru", "commit"}, nil)
+		mk("p", u, []string{"begin", "ws2", "reload", "ws2", "commit"}, nil)
+		mk("p", u, []string{"begin", "ws1", "ru", "ws1", "commit"}, &txFault{Kind: "close", Cmd: 2, Slice: "slice-0", Op: "usedb"})
+		mk("p", u, []string{"ac0", "ws1", "ru", "rs1", "rollback"}, &txFault{Kind: "close", Cmd: 2, Slice: "slice-0", Op: "setvars"})
+		mk("p", u, []string{"begin", "ws2", "fl", "ws2", "commit"}, &txFault{Kind: "close", Cmd: 2, Slice: "slice-0", Op: "setcharset"})
+		mk("p", u, []string{"begin", "ws1", "ru", "commit"}, &txFault{Kind: "close", Cmd: 2, Slice: "slice-0", Op: "setvars"})
+		mk("p", u, []string{"begin", "ws1", "ru", "ws1"}, &txFault{Kind: "close", Cmd: 2, Slice: "slice-0", Op: "exec"})
 	}
 	return out
 }
@@ -312,7 +431,7 @@ func c18Exhaustive(n int) []*txCase {
 }
 
 func TestVerif_C18(t *testing.T) {
-	rec := kit.Start("C18", "exploration", "command sequences over 25 commands (BEGIN, START TRANSACTION, COMMIT, ROLLBACK, SET autocommit 0/1, SAVEPOINT/ROLLBACK TO/RELEASE, sharded reads/writes on one or two slices, unsharded reads/writes, SELECT FOR UPDATE, global-table statements, COM_FIELD_LIST, statements answered with streamed / multi-result sets; one random case in four adds a backend error on the COMMIT / ROLLBACK of one slice followed by a further transaction) for one or two interleaved client sessions sharing the pools, users rw / rw-split / read-only, keep-session on/off; thorough adds every sequence up to length 4 over a 10-command core; a case is non-trivial when a transaction touched a backend, keyed by (mode, users, ordered command classes)")
+	rec := kit.Start("C18", "exploration", "command sequences over 25 commands (BEGIN, START TRANSACTION, COMMIT, ROLLBACK, SET autocommit 0/1, SAVEPOINT/ROLLBACK TO/RELEASE, sharded reads/writes on one or two slices, unsharded reads/writes, SELECT FOR UPDATE, global-table statements, COM_FIELD_LIST, statements answered with streamed / multi-result sets; one random case in four adds a backend error on the COMMIT / ROLLBACK of one slice followed by a further transaction; one in three adds a transaction hit by a namespace reload between or during its statements (keep-session) or by a fault closing the connection of one slice while a second one is held (no keep-session)) for one or two interleaved client sessions sharing the pools, users rw / rw-split / read-only, keep-session on/off; thorough adds every sequence up to length 4 over a 10-command core; a case is non-trivial when a transaction touched a backend, keyed by (mode, users, ordered command classes)")
 	defer rec.Finish(t)
 	rec.Assume("one client command in flight per namespace, so every backend event is attributable to one session")
 	rec.Assume("the slice a rewritten statement was planned for is read from the physical table name (tbl_shard_000N)")
@@ -404,7 +523,7 @@ func TestVerif_C18(t *testing.T) {
 		}
 		cases = append(cases, c18Random(kit.SubRand(seed, "C18/random"), 2500, 10)...)
 	}
-	sort.SliceStable(cases, func(i, j int) bool { return false })
+	cases = append(cases, c18Curated()...)
 	rec.Set("sequences", len(cases))
 	env.txRunAll(cases, judge)
 	rec.Set("runs_with_transaction_calls", txRuns)
